@@ -116,8 +116,10 @@ func TestZZReplay(t *testing.T) {
 		if err := rewriteRedirects(repo, rf.Package, tbl, ov); err != nil {
 			return false, "redirect rewrite: " + err.Error()
 		}
-		if err := rewriteCallSites(repo, append([]string{rf.Package}, rf.RewritePkgs...), tbl, rf.Package, ov); err != nil {
-			return false, "call-site rewrite: " + err.Error()
+		if !rf.NativeEnv {
+			if err := rewriteCallSites(repo, append([]string{rf.Package}, rf.RewritePkgs...), tbl, rf.Package, ov); err != nil {
+				return false, "call-site rewrite: " + err.Error()
+			}
 		}
 	}
 	// materialise the overlay
